@@ -314,9 +314,9 @@ def gen_ops(rng, wl: Workload, n: int, max_reps: int = 50) -> list[list]:
         elif r < 0.16:
             ops.append(["mkw", rng.randrange(len(wl.pool)), rng.random() < 0.3])
         elif r < 0.40:
-            ops.append(["enc", ci, ii, rng.choice((1, 1, 1, 2, 3, max_reps))])
+            ops.append(["enc", ci, ii, rng.choice((1, 1, 1, 2, 3, 17, max_reps, 130, 300))])
         elif r < 0.64:
-            ops.append(["dec", ci, ii, rng.choice((1, 1, 1, 2, 3, max_reps))])
+            ops.append(["dec", ci, ii, rng.choice((1, 1, 1, 2, 3, 17, max_reps, 130, 300))])
         elif r < 0.70:
             ops.append(["encn", ci, rng.choice((ii, -1))])
         elif r < 0.76:
